@@ -5,7 +5,8 @@
   ``PipeTransport``) against a scripted peer whose response stream holds the given zero-row batches, then the result.
 * ``install_message_emitter()``  -- the interpreter service (harness/interp.py) emits logs through
   ``ctx.client_log(level, msg, **extra)``, which cannot express extras named like the parameters of that call; this
-  swaps (in this process only) the emitting helper for one that builds the ``Message`` and assigns ``.extra``.
+  swaps (in this process only) the emitting helper for one that builds the ``Message`` and assigns ``.extra``; inside a
+  step it alternates between ``ctx.emit_client_log`` and ``out.emit_client_log_message`` (both emission channels).
 * JSON text generation with duplicate keys / reserved keys and its classification for the model.
 """
 from __future__ import annotations
@@ -80,11 +81,19 @@ def install_message_emitter() -> None:
     from vgi_rpc.log import Level, Message
 
     def _emit_logs(logs: list[Any], log: Any) -> None:
+        import sys
+
         ctx = log.__self__
-        for lvl, msg, extra in logs:
+        # inside a process() call the step's OutputCollector is the second emission channel (OutputCollector.
+        # emit_client_log_message): alternate between the two, so that their relative order is observable
+        out = sys._getframe(1).f_locals.get("out")
+        for i, (lvl, msg, extra) in enumerate(logs):
             m = Message(Level(lvl), msg)
             m.extra = dict(extra) if extra else None
-            ctx.emit_client_log(m)
+            if out is not None and i % 2 == 1:
+                out.emit_client_log_message(m)
+            else:
+                ctx.emit_client_log(m)
 
     interp._emit_logs = _emit_logs  # type: ignore[assignment]
 
@@ -147,3 +156,60 @@ def as_python(v: Any) -> Any:
     if isinstance(v, list):
         return [as_python(x) for x in v]
     return v
+
+
+def run_zero_reads(kind: str, cfg: dict[str, Any] | None, method: str, pid: int, how: str, timeout: float = 10.0) -> list[list[Any]]:
+    """Open a stream on a fresh connection, take NO batch, then end it: how in {"close", "cancel", "with", "with_raise"}.
+
+    "with" leaves an empty ``with session:`` block; "with_raise" leaves it through an exception raised by the caller's
+    own code before the first exchange.  Returns the client trace (same event vocabulary as harness.interp)."""
+    import threading
+
+    from harness import interp as I
+    from vgi_rpc.rpc import RpcError
+
+    class _Early(Exception):
+        pass
+
+    with I.open_transport(kind, cfg) as conn:
+        ev: list[list[Any]] = []
+        conn.rec.events = ev
+
+        def body() -> None:
+            try:
+                sess = getattr(conn.proxy, method)(pid=pid)
+                if I.METHOD_HEADER[method]:
+                    ev.append(["header", getattr(sess.header, "h", None)])
+                if how == "close":
+                    sess.close()
+                elif how == "cancel":
+                    sess.cancel()
+                elif how == "with":
+                    with sess:
+                        pass
+                elif how == "with_raise":
+                    try:
+                        with sess:
+                            raise _Early
+                    except _Early:
+                        pass
+                else:
+                    raise ValueError(how)
+            except RpcError as e:
+                ev.append(["error", e.error_type, e.error_message])
+            except BaseException as e:  # noqa: BLE001 - the observation
+                ev.append(["client_exc", type(e).__name__, str(e)[:200]])
+
+        t = threading.Thread(target=body, daemon=True, name="c08-zero-reads")
+        t.start()
+        t.join(timeout)
+        if t.is_alive():
+            conn.poisoned = True
+            if conn.closer is not None:
+                try:
+                    conn.closer()
+                except Exception:  # noqa: BLE001
+                    pass
+                t.join(2.0)
+            return I.cut(list(ev) + [["blocked"]])
+        return I.cut(list(ev))
